@@ -85,7 +85,7 @@ package registry
 //@   safety C19
 //@   effect fs-read
 //@   ensures{C10} default-or-source-name-is-the-source-package: pkgInputVal == "" || pkgInputVal == srcPkgName ==> path == srcPkgPath && forallEv(i, !effectful(i))
-//@   ensures{C10} other-name-one-of-three: path == srcPkgPath || path == "" || existsEv(i, evIs(i, "path/filepath.Join") && path == evRes(i))
+//@   ensures{C10} other-name-one-of-three: path == srcPkgPath || path == "" || existsEv(i, (evIs(i, "path/filepath.Join") || evIs(i, "path.Join")) && path == evRes(i))
 //@   ensures{C10} source-path-only-if-loader-says-so: pkgInputVal != "" && pkgInputVal != srcPkgName && srcPkgPath != "" && path == srcPkgPath ==> existsEv(i, evIs(i, "call:registry.pkgInDir") && evArg(i, 0) == srcPkgPath && evArg(i, 1) == pkgInputVal && evRes(i))
 //@   ensures{C10} unknown-destination-is-empty: pkgInputVal != "" && pkgInputVal != srcPkgName && forallEv(i, evIs(i, "call:registry.pkgInDir") ==> !evRes(i)) ==> path == ""
 //@ define effectful(j) = evKind(j, "fs-read") || evKind(j, "fs-write") || evKind(j, "io-write") || evKind(j, "stdout") || evKind(j, "exit")
